@@ -18,21 +18,21 @@ Theorem C11_complete_schedules : forall cx s c p oid cid sz ok s' d, step cx s (
   exists sid sh', shards s' !! sid = Some sh' /\ sh_sp sh' = p /\ sh_status sh' = ShardCompleted /\ sh_created sh' = cx_height cx /\
     In sid (default [] (expshards s' !! u64 (sh_created sh' + sh_duration sh'))) /\
     (forall o sh0, orders s !! oid = Some o -> shard_by_sp s o p = Some (sid, sh0) -> sh_status sh0 = ShardWaiting -> sh_duration sh' = o_duration o).
-Proof. exact complete_schedules. Qed.
+Proof. first [exact complete_schedules | apply complete_schedules]. Qed.
 Print Assumptions C11_complete_schedules.
 
 Theorem C11_end_block_releases_only_scheduled : forall cx s evs sid sh,
   shards s !! sid = Some sh -> sh_status sh = ShardCompleted -> shards (fst (step cx s (OEndBlock evs))) !! sid = None ->
   In sid (default [] (expshards s !! cx_height cx)) \/
   (exists oid, In oid (default [] (timeouts s !! cx_height cx))).
-Proof. exact end_block_releases_only_scheduled. Qed.
+Proof. first [exact end_block_releases_only_scheduled | apply end_block_releases_only_scheduled]. Qed.
 Print Assumptions C11_end_block_releases_only_scheduled.
 
 Theorem C11_end_block_releases_only_scheduled_strong : forall cx s evs sid sh,
   (forall oid, In oid (default [] (timeouts s !! cx_height cx)) -> fully_stored s oid) ->
   shards s !! sid = Some sh -> shards (fst (step cx s (OEndBlock evs))) !! sid = None ->
   In sid (default [] (expshards s !! cx_height cx)).
-Proof. exact end_block_releases_only_scheduled_strong. Qed.
+Proof. first [exact end_block_releases_only_scheduled_strong | apply end_block_releases_only_scheduled_strong]. Qed.
 Print Assumptions C11_end_block_releases_only_scheduled_strong.
 
 Theorem C11_expired_shard_post : forall cx sid s s' sh o, handle_expired_shard cx sid s = Ok tt s' ->
@@ -49,5 +49,5 @@ Theorem C11_expired_shard_post : forall cx sid s s' sh o, handle_expired_shard c
   | [x] => if x =? sid then orders s' !! sh_order sh = None else orders s' !! sh_order sh = Some o
   | l => exists o', orders s' !! sh_order sh = Some o' /\ o_shards o' = remove_firstZ sid l
   end.
-Proof. exact expired_shard_post. Qed.
+Proof. first [exact expired_shard_post | apply expired_shard_post]. Qed.
 Print Assumptions C11_expired_shard_post.
